@@ -32,14 +32,13 @@ theorem code_shape :
     Generated.C09.truncateReadsJournalSize = false ∧ Generated.C09.totalIsSnapshotSum = true ∧
     Generated.C09.loopsRereadChunkSize = false ∧
     -- 49b0b2b: the dry MAXDBSIZE pass subtracts the chunks phase I already counted
-    Generated.C09.globalChunksDelta = "nck" ∧ Generated.C09.dryDeltaSubtractsPhase1 = true ∧
+    Generated.C09.globalDeltaIsLenCks = true ∧ Generated.C09.dryDeltaSubtractsPhase1 = true ∧
     -- the time index folds a write notification into a chunk's hull with two independent ifs (MinTs, MaxTs)
     Generated.C09.hullUpdateIndependentIfs = true ∧
     -- deleteJournal re-checks the size under its exclusive lock
     Generated.C09.deleteJournalRechecksSize = true ∧
     -- cac5c5d: equal latest timestamps are ordered by source id
-    Generated.C09.insertPredicate =
-      "si.LatestTs < ti.LatestTs || (si.LatestTs == ti.LatestTs && si.Src >= ti.Src)" := by decide
+    Generated.C09.insertOrdersByTsDescThenSrcAsc = true := by decide
 
 /-! ## one partition (phase I: `truncate` with the statement's parameters) -/
 
